@@ -1,7 +1,7 @@
 (* C19 — proxying is decided by options, environment and no_proxy exactly as documented.
    Statements only (restated verbatim from Proofs/*.v), each closed by [exact]. *)
 From Coq Require Import ZArith List Bool Permutation.
-From WS Require Import Base.Res Base.Bytes Base.Str Base.StrMore Gen.GenHandshake Model.Url Model.Proxy Spec.Url Spec.Proxy Proofs.UrlProof.
+From WS Require Import Base.Res Base.Bytes Base.Str Base.StrMore Base.B64 Gen.GenHandshake Model.Xport Model.Http Model.Url Model.Proxy Model.Tunnel Spec.Url Spec.Proxy Proofs.UrlProof Proofs.TunnelProof.
 Import ListNotations.
 Open Scope Z_scope.
 
@@ -85,3 +85,27 @@ Theorem C19_env_value_form : forall p, wf_parts p ->
         proxy_of_value (proxy_url p) = Raise (Internal TypeErr)).
 Proof. exact UrlProof.C19_env_value_form. Qed.
 Print Assumptions C19_env_value_form.
+
+(* through an HTTP proxy the client proceeds only on a 200 reply *)
+Theorem C19_tunnel_only_on_200 : forall x host port auth x',
+  tunnel x host port auth = (Ok tt, x') ->
+  exists h, read_headers (xlog x (IWrite (connect_request host port auth))) = (Ok h, x') /\ h_status h = Some 200.
+Proof. exact TunnelProof.tunnel_only_on_200. Qed.
+Print Assumptions C19_tunnel_only_on_200.
+
+Theorem C19_tunnel_failure_is_proxy_error : forall x host port auth e x',
+  tunnel x host port auth = (Raise e, x') -> e = ProxyErr.
+Proof. exact TunnelProof.tunnel_failure_is_proxy_error. Qed.
+Print Assumptions C19_tunnel_failure_is_proxy_error.
+
+(* the first transport event is the write of CONNECT host:port with Host and, when configured, Basic credentials *)
+Theorem C19_tunnel_first_bytes : forall x host port auth r x',
+  tunnel x host port auth = (r, x') ->
+  exists tail, iolog x' = iolog x ++ IWrite (connect_request host port auth) :: tail.
+Proof. exact TunnelProof.tunnel_first_bytes. Qed.
+Print Assumptions C19_tunnel_first_bytes.
+
+Theorem C19_credentials_roundtrip : forall auth c, credentials auth = Some c -> bytes_ok c ->
+  b64_decode (b64_encode c) = Some c.
+Proof. exact TunnelProof.credentials_roundtrip. Qed.
+Print Assumptions C19_credentials_roundtrip.
